@@ -2,6 +2,7 @@
 import sys
 import os
 import logging
+import math
 
 sys.path.insert(0, os.path.dirname(os.path.abspath(__file__)))
 import sx  # noqa: E402
@@ -32,8 +33,9 @@ def build(x):
     if k == "L":
         c = ce.Chronon(int(x[1]) / TICK, tag=(None if int(x[2]) == 0 else f"t{x[2]}"), tempo=tempo(x[3]))
         for n, v in x[4]:
-            # negative codes stand for non-numeric parameter values (a rest's pitch None, a string, a tuple, a float)
-            setattr(c, f"p{n}", {-1: None, -2: "s", -3: (1, 2), -4: 0.5}.get(int(v), int(v)))
+            # negative codes stand for non-numeric parameter values (a rest's pitch None, a string, a tuple, a float, and
+            # values that happen to be callable: an envelope shape given as a function, a class)
+            setattr(c, f"p{n}", {-1: None, -2: "s", -3: (1, 2), -4: 0.5, -5: math.sin, -6: math.cos, -7: int}.get(int(v), int(v)))
         return c
     cls = ce.Consecution if k == "S" else ce.Concurrence
     return cls([build(c) for c in x[3:]], tag=(None if int(x[1]) == 0 else f"t{x[1]}"), tempo=tempo(x[2]))
